@@ -98,9 +98,10 @@ Print Assumptions C02_small_int_monotone.
       TypeScript paths on which the substring test and the documented test-file rule differ, and TypeScript
       declarations of a one-letter upper-case name (partial: the full statements
       are 1; for Rust there is no restriction left, see C02_rs_report_exact). *)
-Theorem C02_actual_partial : forall lg cfg f,
-  file_good lg f = true -> file_plain lg magic_actual f = true -> report lg magic_actual cfg f = spec_report lg cfg f.
-Proof. intros lg cfg f. exact (report_guarded lg magic_actual cfg f). Qed.
+Theorem C02_actual_partial : forall lg cfg f ds,
+  file_good lg f = true -> file_plain lg magic_actual f = true -> dirs_good ds = true ->
+  lint_d lg magic_actual cfg f ds = spec_lint_d lg cfg f ds.
+Proof. intros lg cfg f ds. exact (lint_d_guarded lg magic_actual cfg f ds). Qed.
 Print Assumptions C02_actual_partial.
 
 (* 9. The defaults found in the source are the documented ones. *)
@@ -116,6 +117,52 @@ Theorem C02_config_precedence : forall cfg,
   (forall v, nmem v (allowed cfg) = nmem v (spec_allowed cfg)) /\ max_small cfg = spec_max_small cfg.
 Proof. exact (fun cfg => conj (allowed_spec cfg) (max_small_spec cfg)). Qed.
 Print Assumptions C02_config_precedence.
+
+(* 11. The section switches: with `enabled: false` nothing is reported; a file matched by an `ignore` pattern is skipped;
+       otherwise the command reports exactly what the rule demands; the delta law survives the switches. *)
+Theorem C02_lint_exact : forall lg q cfg f,
+  flags_off lg q -> file_good lg f = true -> lint lg q cfg f = spec_lint lg cfg f.
+Proof. exact lint_exact. Qed.
+Print Assumptions C02_lint_exact.
+
+Theorem C02_lint_disabled : forall lg q cfg f, c_enabled cfg = Some false -> lint lg q cfg f = [].
+Proof. exact lint_disabled. Qed.
+Print Assumptions C02_lint_disabled.
+
+Theorem C02_lint_ignored : forall lg q cfg f p,
+  In p (c_ignore cfg) -> path_match p (f_name f) || contains (chars p) (chars (f_name f)) = true -> lint lg q cfg f = [].
+Proof. exact lint_ignored. Qed.
+Print Assumptions C02_lint_ignored.
+
+Theorem C02_lint_allowed_add : forall lg q cfg a f,
+  lint lg q (add_allowed a cfg) f = filter (keep (norm a)) (lint lg q cfg f).
+Proof. exact lint_allowed_add. Qed.
+Print Assumptions C02_lint_allowed_add.
+
+(* 12. Same-line ignore directives (trailing `# thailint: ignore[...]` / `// thailint: ignore[...]` comments of the documented
+       forms): the reports are exactly the demanded ones on the lines that carry no matching directive; the delta law survives. *)
+Theorem C02_directives_exact : forall lg q cfg f ds,
+  flags_off lg q -> file_good lg f = true -> dirs_good ds = true -> lint_d lg q cfg f ds = spec_lint_d lg cfg f ds.
+Proof. exact lint_d_exact. Qed.
+Print Assumptions C02_directives_exact.
+
+Theorem C02_directive_line : forall lg cfg f ds r,
+  In r (spec_lint_d lg cfg f ds) <-> In r (spec_lint lg cfg f) /\ suppressed_at spec_suppresses ds (fst r) = false.
+Proof. exact spec_directive_line. Qed.
+Print Assumptions C02_directive_line.
+
+Theorem C02_directives_delta : forall lg q cfg a f ds,
+  lint_d lg q (add_allowed a cfg) f ds = filter (keep (norm a)) (lint_d lg q cfg f ds).
+Proof. exact lint_d_delta. Qed.
+Print Assumptions C02_directives_delta.
+
+(* 13. Negative entries of allowed_numbers match nothing: a literal is an unsigned token (the minus of `-5` is an operator in
+       the three grammars), so adding a negative value changes no report.  (The documentation's `status == -1` example is
+       quiet because 1 is allowed, not because -1 is.) *)
+Theorem C02_negative_allowed_inert : forall lg q cfg a f,
+  flags_off lg q -> file_good lg f = true -> (fst a < 0)%Z -> report lg q (add_allowed a cfg) f = report lg q cfg f.
+Proof. exact negative_allowed_inert. Qed.
+Print Assumptions C02_negative_allowed_inert.
 
 (* non-vacuity: admissible files in the three languages with literals on both sides of the rule *)
 Definition ex_py : file :=
@@ -136,14 +183,14 @@ Definition ex_rs : file :=
   mk_file "/case.rs"
     [mk_scope SFunc None [] [mk_site CAssign "val" [LInt RHex [[1;15;3;2]] false ""] 2; mk_site CUpper "MAX_V" [LInt RDec [[9]] false ""] 3];
      mk_scope SFunc (Some ["#[cfg(test)]"]) ["#[test]"] [mk_site CAssign "val" [LInt RDec [[3;1;1]] false "_i32"] 7]].
-Definition ex_cfg : mconfig := mk_cfg (Some [(7, 0)%Z]) None None.
+Definition ex_cfg : mconfig := mk_cfg (Some [(7, 0)%Z]) None None None [].
 
 Example C02_nonvacuous :
   file_good MPy ex_py = true /\ file_good MTs ex_ts = true /\ file_good MRs ex_rs = true
   /\ spec_report MPy ex_cfg ex_py = [(2, RNum (31, 0)%Z); (3, RNum (13, 0)%Z); (4, RNum (5, 1)%Z); (5, RNum (25, -4)%Z)]
   /\ spec_report MTs ex_cfg ex_ts = [(2, RNum (254, 0)%Z); (3, RNum (1, 1)%Z); (4, RNum (37, 0)%Z)]
-  /\ spec_report MTs (mk_cfg (Some [(37, 0)%Z]) None (Some (None, Some 3%Z))) ex_ts = [(2, RNum (254, 0)%Z); (3, RNum (1, 1)%Z)]
-  /\ spec_report MTs (mk_cfg (Some [(37, 0)%Z]) None (Some (Some [], None))) ex_ts
+  /\ spec_report MTs (mk_cfg (Some [(37, 0)%Z]) None (Some (None, Some 3%Z)) None []) ex_ts = [(2, RNum (254, 0)%Z); (3, RNum (1, 1)%Z)]
+  /\ spec_report MTs (mk_cfg (Some [(37, 0)%Z]) None (Some (Some [], None)) None []) ex_ts
      = [(2, RNum (254, 0)%Z); (3, RNum (1, 1)%Z); (4, RNum (37, 0)%Z)]
   /\ spec_report MRs ex_cfg ex_rs = [(2, RNum (7986, 0)%Z)].
 Proof. vm_compute. repeat split; reflexivity. Qed.
